@@ -141,6 +141,11 @@ def do_call(env, call, actions, bad):
         if kind == "reset":
             o = env.reset(fold=call[1])
             return ("reset", obs_repr(o), snapshot(env))
+        if kind == "resetn":
+            # a sampled episode window of call[2] steps; the start is the choice call[3] of the numpy.random.choice seam
+            with ChoiceSeam(call[3]):
+                o = env.reset(fold=call[1], episode_length=call[2])
+            return ("resetn", obs_repr(o), snapshot(env))
         if kind == "step":
             a = bad if call[1] == "bad" else actions[call[1]]
             o, r, d, info = env.step(a)
@@ -173,7 +178,8 @@ def probe_episode(env, actions, bad, fold="training-set"):
     return tuple(out)
 
 
-CALLS = [("reset", "training-set"), ("reset", "f2"), ("step", 0), ("step", 1), ("step", "bad"), ("finish",)]
+CALLS = [("reset", "training-set"), ("reset", "f2"), ("step", 0), ("step", 1), ("step", "bad"), ("finish",),
+         ("resetn", "training-set", 3, 1), ("resetn", "f2", 2, 0)]
 
 
 def _seq_work(unit):
@@ -347,7 +353,7 @@ def run(tier, **kw):
     rep.set("schedule_distinct_outcomes", len(souts))
     rep.set("schedule_pairs", [list(p) for p in PAIRS])
     rep.set("exhaustive", True)
-    rep.set("rule", "sequential: every call history of length <= depth over 6 calls (reset fold 1/2, step a1/a2, malformed step, run to done) for 5 "
+    rep.set("rule", "sequential: every call history of length <= depth over 8 calls (reset fold 1/2, step a1/a2, malformed step, run to done, reset with a sampled 3-step / 2-step episode window) for 5 "
                     "configurations (2 ETFs with library features; ETF+margined with fees, latency and delay; ES chain across a roll; windowed State; "
                     "discrete space with delay 2), followed by a probe episode compared bit-for-bit (float.hex / array bytes) with a fresh environment; "
                     "non-trivial = history with at least one successful call. schedules: ALL C(2n,n) interleavings of two n-call scripts for 7 pairs "
